@@ -185,6 +185,29 @@ Theorem build_mode_irrelevant : forall dbg e spec specs bs,
 Proof. exact AttrProofs.build_mode_irrelevant. Qed.
 
 (* ------------------------------------------------------------------ *)
+(* the line-table variant (src/read/line.rs parse_attribute): on the forms it shares with the DIE
+   reader it returns the same value and the same rest as reading a nameless attribute; data16 is
+   handed out as its 16 bytes; every other code is UnknownForm; it cannot panic *)
+
+Theorem line_parse_is_die_parse : forall dbg e f bs, In f line_forms ->
+  line_parse_attribute dbg e (form_code f) bs = parse_attribute dbg e (mkSpec 0 (form_code f) 0) bs.
+Proof. exact AttrProofs.line_parse_is_die_parse. Qed.
+
+Example line_forms_ex : In F_strx3 line_forms /\ In F_data4 line_forms /\ ~ In F_addr line_forms.
+Proof. cbn. intuition discriminate. Qed.
+
+Theorem line_parse_other : forall dbg e c bs, existsb (N.eqb c) line_codes = false ->
+  line_parse_attribute dbg e c bs = Err EUnknownForm.
+Proof. exact AttrProofs.line_parse_other. Qed.
+
+Example line_parse_other_ex : existsb (N.eqb 1) line_codes = false /\ existsb (N.eqb 22) line_codes = false.
+Proof. split; reflexivity. Qed.
+
+Theorem line_parse_no_panic : forall dbg e c bs,
+  line_parse_attribute dbg e c bs <> Panic /\ line_parse_attribute dbg e c bs <> OutOfFuel.
+Proof. exact AttrProofs.line_parse_res. Qed.
+
+(* ------------------------------------------------------------------ *)
 (* translator tie: the tables regenerated from the Rust source text on every run (coq/Gen/*.v,
    translate/tables.py) are the tables of the model the theorems above are about *)
 
